@@ -38,8 +38,8 @@ CHECKS = [
           "two known findings (signed entity type variant not hashed) printed as KNOWN-FINDING; certificates claiming stakes far above the total are excluded from the verdict comparison (verifier lottery cost)",
           "runtime monitor: mutation + metamorphic round-trip oracle over generated certificates", "DESIGN.md §2 C04"),
     check("C05", "mon-wire", "exploration",
-          "Runtime monitor in child processes with a counting global allocator: 72 decoder entry points (from_bytes / from_bytes_hex / TryFrom<&str> / Deserialize of every wire type, JSON messages and their conversions) fed with honest encodings, structure-aware mutations (every length/count field of the legacy layouts set to boundary values, truncation at every offset, splices, CBOR head rewriting, nesting bombs, prefix flips, JSON abuse) and random bytes; outcome classes value / error / PANIC (hook) / ABORT (child exit status, last input persisted before the call) / allocation out of proportion (single request > 16 MiB and > 256x input) / no termination (watchdog); honest values must round-trip. Dev profile = overflow checks on. Thorough adds a release-profile pass; ASan (nightly) and Miri runs are documented in DESIGN §7.",
-          "rustc overflow checks / the harness allocator as sanitizers; ASan, Miri executed manually (commands in DESIGN.md), not part of the registered commands",
+          "Runtime monitor in child processes with a counting global allocator: 72 decoder entry points (from_bytes / from_bytes_hex / TryFrom<&str> / Deserialize of every wire type, JSON messages and their conversions) fed with honest encodings, structure-aware mutations (every length/count field of the legacy layouts set to boundary values, truncation at every offset, splices, CBOR head rewriting, nesting bombs, prefix flips, JSON abuse) and random bytes; outcome classes value / error / PANIC (hook) / ABORT (child exit status, last input persisted before the call) / allocation out of proportion (single request > 16 MiB and > 256x input) / no termination (watchdog); honest values must round-trip. Dev profile = overflow checks on. Thorough adds an AddressSanitizer pass of the same workload (nightly -Zsanitizer=address, any report = violation); Miri runs are documented in DESIGN §7.",
+          "rustc overflow checks / the harness allocator as sanitizers; ASan pass is part of the thorough command; Miri executed manually (command in DESIGN.md)",
           "runtime monitoring with sanitizing allocator, panic hook and process isolation over mutated encodings", "DESIGN.md §2 C05"),
     check("C06", "mon-stm", "exploration",
           "Runtime monitor: for each generated registration set the aggregate key bytes, total stake and every party's slot are observed through mithril-stm directly, through mithril-common's SignerBuilder over KES-certified fixture signers, and after passing signers and key through their JSON/hex wire forms; observations must be equal across all registration orders (all n! for n<=6, sampled above) and paths, and differ for neighbouring sets. Held on the sets explored.",
@@ -70,15 +70,15 @@ CHECKS = [
           "sha256/blake2 as primitives; excluded by stated assumption: a second directory named immutable, symlinks, files modified while cached, concurrent use of one cache",
           "runtime monitor: metamorphic + reference-model oracle over generated databases and cache histories", "DESIGN.md §2 C12"),
     check("C13", "mon-import", "exploration",
-          "Runtime monitor: seeded histories (forward batches, roll-backs to any earlier point / first stored block / range boundary +-1 / before the first stored block, imports with non-monotone targets, restarts = re-opened file-backed sqlite + new connection, pruning) drive the REAL CardanoChainDataImporter, ChainReaderBlockStreamer and sqlite repositories through a chain-sync server model over a fork tree; after every step the tables are compared with a fresh import of the canonical chain to the same target and with an independent specification model, and the roots offered by the real signable builders at every beacon are compared with a node that imported exactly to the beacon.",
-          "the chain-sync model mirrors what PallasChainReader relays (decisions documented in reader.rs, self-checked); five known findings printed as KNOWN-FINDING; targets never above the node's tip",
+          "Runtime monitor: seeded histories (forward batches, roll-backs to any earlier point / first stored block / range boundary +-1 / before the first stored block, imports with non-monotone targets, restarts = re-opened file-backed sqlite + new connection, pruning, and an injected store failure: one write of a batch of blocks fails in the middle of an import which is then retried in the same process) drive the REAL CardanoChainDataImporter, ChainReaderBlockStreamer and sqlite repositories through a chain-sync server model over a fork tree; after every step the tables are compared with a fresh import of the canonical chain to the same target and with an independent specification model, and the roots offered by the real signable builders at every beacon are compared with a node that imported exactly to the beacon.",
+          "the chain-sync model mirrors what PallasChainReader relays (decisions documented in reader.rs, self-checked); six known findings printed as KNOWN-FINDING; targets never above the node's tip; the only injected store fault is a failing store_blocks_and_transactions (nothing written)",
           "runtime monitor: recomputation-from-scratch + specification-model oracle over roll-back histories", "DESIGN.md §2 C13"),
     check("C14", "mon-agg", "exploration",
           "History monitor over the REAL aggregator (its own DependenciesBuilder wiring, file-backed sqlite, real state machine/certifier/epoch service/signer registration/signed entity service; doubles only for the outside world): seeded random histories of ticks, epoch changes incl. jumps, new immutables/blocks, partial/late registrations, valid/repeated/invalid/early(buffered) signatures, forced expiry, clean restarts, genesis re-issue; after every event the tables are read through an independent connection and every new certificate row is judged (live open message + quorum of acknowledged valid deliveries, key/parameters recomputed from the logged registrations, parent rule, no double certification, no gap); every stored certificate is verified with the public certificate verifier fed from the aggregator's own message service. Held on the histories explored; evidence lists states/transitions reached.",
           "test doubles for chain observer / immutable observer / digester / block scanner / uploader / snapshotter; clean restarts only (C15 covers crashes); sqlite durability",
           "runtime monitor: boundary event log + table snapshots checked by a history checker (reference recomputation of keys, parent, quorum)", "DESIGN.md §2 C14"),
     check("C15", "mon-agg", "fault_enumeration",
-          "Fault enumeration with real process deaths: scripted honest histories over the real aggregator run once unarmed to record which named crash points (after multi-signature, after certificate insert, after open-message update, before/after artifact computation, after signed-entity insert, after each buffered hand-over, before/after buffer removal) are hit how often; then EVERY reached (point, occurrence) is crashed once by std::process::abort() inside the aggregator in a child process, a new process restarts on the same sqlite files and a monitor checks after the restart and after every further tick: all certificates verify with their chain under the public verifier, no signed entity has two artifacts, every artifact references a stored certificate of exactly that entity, and bounded progress (a new certified artifact within 8 macro steps of the honest workload). Double crashes are sampled.",
+          "Fault enumeration with real process deaths: scripted honest histories over the real aggregator (rotating over three configurations: all five signed entity types / MithrilStakeDistribution + CardanoDatabase / MithrilStakeDistribution alone) run once unarmed to record which named crash points (after multi-signature, after certificate insert, after open-message update, before/after artifact computation, after signed-entity insert, after each buffered hand-over, before/after buffer removal) are hit how often; then EVERY reached (point, occurrence) is crashed once by std::process::abort() inside the aggregator in a child process, a new process restarts on the same sqlite files and a monitor checks after the restart and after every further tick: all certificates verify with their chain under the public verifier, no signed entity has two artifacts, every artifact references a stored certificate of exactly that entity, and bounded progress, judged twice: inside the epoch of the restart (3 new immutable files must give a new certified artifact when CardanoDatabase is enabled) and overall (a new certified artifact within 8 macro steps of the honest workload, epoch changes included). Double crashes are sampled.",
           "sqlite durability; doubles of the outside world re-created at the persisted time point; exhaustive only over the crash points x occurrences reached by the base histories of the run",
           "runtime monitoring under injected process crashes (abort at cfg-guarded crash points), invariants + bounded progress after restart", "DESIGN.md §2 C15"),
     check("C16", "mon-agg", "exploration",
